@@ -165,6 +165,22 @@ m("f4-revert-collection", "_snapshot/collection_value.py", "        if self._old
 m("xfail-inverted", "pytest_plugin.py", "    if xfail.args and xfail.args[0] == False:\n        return False", "    if xfail.args and xfail.args[0] == False:\n        return True", ["C04"], "xfail(False) tests run deactivated")
 
 
+# ---- C04
+m("report-applies", "pytest_plugin.py", '                console().print("These changes are not applied.")', '                return True\n                console().print("These changes are not applied.")', ["C04"], "apply_changes returns True under report")
+m("flags-and-categories", "pytest_plugin.py", "        state().update_flags = Flags(flags & categories)", "        state().update_flags = Flags(categories if flags & categories else set())", [], "any category flag enables all update flags (comparison results only; informational)")
+m("short-report-falls-through", "pytest_plugin.py", '            if "short-report" in state().flags:\n', '            if "short-report" in state().flags and not state().flags & categories:\n', ["C04"], "short-report combined with categories applies them")
+m("env-beats-cli", "pytest_plugin.py", "    if config.option.inline_snapshot is None:\n        flags = set(default_flags)", "    if config.option.inline_snapshot is None or env_var in os.environ:\n        flags = set(default_flags)", ["C04"], "INLINE_SNAPSHOT_DEFAULT_FLAGS overrides the command line")
+m("xfail-active", "pytest_plugin.py", "            local_state.active = False", "            local_state.active = True", [], "xfail tests run with an active private state (changes are still dropped with the state; informational)")
+m("xfail-not-isolated", "pytest_plugin.py", "    if is_xfail(request):", "    if False and is_xfail(request):", ["C04"], "snapshots in xfail tests are rewritten")
+m("review-ignores-answer", "pytest_plugin.py", "                console().print()\n                return result", "                console().print()\n                return result or flag == 'fix'", ["C04"], "fix is applied in review mode even when answered n")
+m("ci-pycharm-ignored", "pytest_plugin.py", '    if bool(os.environ.get("PYCHARM_HOSTED", False)):', '    if False:', ["C04"], "PYCHARM_HOSTED no longer overrides the CI detection (nothing applied: only 'approved not applied')")
+m("ci-var-dropped", "pytest_plugin.py", '        "JENKINS_URL",\n', "", ["C04"], "JENKINS_URL is not detected as CI")
+m("tui-uses-default-flags", "pytest_plugin.py", "        default_flags = _config.config.default_flags_tui", "        default_flags = _config.config.default_flags", ["C04"], "default-flags-tui ignored on a terminal")
+m("worker-active-revert", "pytest_plugin.py", '    ) or hasattr(config, "workerinput")  # inside of a xdist worker process', "    )", ["C04"], "revert of the xdist worker fix")
+m("review-trim-revert", "pytest_plugin.py", '            trim_approved = "trim" in state().flags or "trim" in approved_categories', "            trim_approved = state().update_flags.trim", ["C04", "C13"], "revert of the review/unused externals fix")
+m("persist-unreferenced", "pytest_plugin.py", "                    for external_name in used:\n                        state().storage.persist(external_name)", "                    for external_name in used:\n                        state().storage.persist(external_name)\n            for f in list(state().storage.directory.glob('*-new.*')) if state().storage.directory.exists() else []:\n                state().storage.persist(f.name.replace('-new', ''))", ["C04", "C13"], "every outsourced file is persisted at session end, referenced or not")
+
+
 def make_copy(mut):
     base = os.environ.get("VERIF_TMP") or ("/dev/shm" if os.path.isdir("/dev/shm") else tempfile.gettempdir())
     d = Path(tempfile.mkdtemp(prefix="mutant-", dir=base))
